@@ -891,7 +891,11 @@ class TextXVisitor(RRELVisitor):
                 elif repeat_op == "+":
                     rule = OneOrMore(nodes=[expr])
                 else:
-                    rule = UnorderedGroup(nodes=expr.nodes)
+                    if isinstance(expr, RuleCrossRef):
+                        # Unordered group of a single rule reference.
+                        rule = UnorderedGroup(nodes=[expr])
+                    else:
+                        rule = UnorderedGroup(nodes=expr.nodes)
 
                 if modifiers:
                     modifiers, position = modifiers
